@@ -1989,6 +1989,12 @@ def control_histories(doc):
                                 probs.append(('C04', 'probe-raises', f'probing kill raised {type(e).__name__}'))
                             if not proc.has_terminated():
                                 probs.append(('C04', 'unkillable', f'live end configuration ({proc.state.name}, paused={proc.paused}) cannot be killed'))
+                    # ---- C01 / C02 views of the same histories
+                    if 'C01' in want and 'trace_len_at_kill' in obs and (len(proc.trace) > obs['trace_len_at_kill'] or proc.state.name != 'KILLED'):
+                        probs.append(('C01', 'terminal-not-final', f'kill() returned True (KILLED), afterwards: state {proc.state.name}, '
+                                                                     f'steps run {proc.trace[obs["trace_len_at_kill"]:]}'))
+                    if 'C02' in want and proc.state.name == 'KILLED' and killed_asked and proc.killed_msg().get('message') != 'enough':
+                        probs.append(('C02', 'kill-text', f'killed_msg() reports the text {proc.killed_msg().get("message")!r}, kill() was given \'enough\''))
                     # ---- C03
                     if 'C03' in want and errs:
                         probs.append(('C03', 'loop-error', f'reported to the event loop: {errs[:2]}'))
